@@ -12,7 +12,9 @@ for idx, (f, i, a, b, rep, pat) in enumerate(cands):
     subprocess.run(["git", "checkout", "-q", "--", "."], cwd="/tmp/mut/repo")
     p = os.path.join("/tmp/mut/repo", f)
     lines = open(p).read().split("\n")
-    if rep == "SWAP":
+    if rep == "DELBLOCK":
+        del lines[i:i + a + 1]
+    elif rep == "SWAP":
         lines[i], lines[i + 1] = lines[i + 1], lines[i]
     else:
         lines[i] = lines[i][:a] + rep + lines[i][b:]
